@@ -41,6 +41,8 @@ AggVal(d, ix) ==
     [] d.fn = "avg"   -> IF u = <<>> THEN NullV ELSE Norm(SumF(u), Scale * Len(u))
     [] d.fn = "min"   -> IF u = <<>> THEN NullV ELSE Norm(MinF(u), Scale)
     [] d.fn = "max"   -> IF u = <<>> THEN NullV ELSE Norm(MaxF(u), Scale)
+    \* nth_value(x, n): the n-th non-NULL value of the group in arrival order (d.p = n), NULL when there are fewer
+    [] d.fn = "nth_value" -> IF Len(u) >= d.p THEN Norm(u[d.p].v, Scale) ELSE NullV
     \* value of the last row in which the column is present (an explicit NULL counts)
     [] d.fn = "last_value" -> LET ps == SelectSeq(ix, LAMBDA i : Has(rows[i], d.arg)) IN
                               IF ps = <<>> THEN NullV ELSE FromSV(rows[ps[Len(ps)]][d.arg])
